@@ -1,57 +1,10 @@
-import z3, symint, claripy, traceback, time, itertools, weakref
-from symint import SInt, SBool, explore, W, ENG
-import claripy.ast.bv as cbv
-
-# --- unique serialisation for symbolic constants
-_uid = itertools.count(1)
-def _mk(t, n):
-    s = SInt(z3.ZeroExt(W - n, t))
-    s.uid = next(_uid)
-    return s
-SInt.bit_length = lambda s: 200
-def _to_bytes(s, length=1, byteorder="big", *, signed=False):
-    uid = getattr(s, "uid", None)
-    if uid is None:
-        s.uid = uid = next(_uid)
-    return b"\xfeSYM" + uid.to_bytes(8, "little") + b"\xfe"
-SInt.to_bytes = _to_bytes
-
-# --- BVV wrapper: keep hash-consing faithful: fork on equality with every known constant of same size
-_orig_BVV = cbv.BVV
-KNOWN = {}   # size -> list of (value (int or SInt), node)
-def BVV(value, size=None, **kwargs):
-    if kwargs or value is None or not isinstance(value, int) or size is None:
-        return _orig_BVV(value, size, **kwargs)
-    lst = KNOWN.setdefault(size, [])
-    mask = (1 << size) - 1
-    if isinstance(value, SInt):
-        value = value & mask
-        t = z3.simplify(symint.term(value))
-        if z3.is_bv_value(t):
-            value = t.as_long()
-    else:
-        value &= mask
-    for kv, node in lst:
-        if isinstance(kv, SInt) or isinstance(value, SInt):
-            if kv is value or (kv == value):   # SBool -> fork
-                return node
-        elif kv == value:
-            return node
-    node = _orig_BVV(value, size)
-    lst.append((value, node))
-    return node
-for mod in (cbv, claripy, claripy.ast, ):
-    if hasattr(mod, "BVV"): mod.BVV = BVV
-import claripy.frontend.frontend, claripy.backends.backend_concrete.backend_concrete as bcc
-# --- z3 leaf conversion for symbolic constants
-_orig_z3_BVV = claripy.backends.z3._op_expr["BVV"]
-def z3_BVV(ast):
-    v = ast.args[0]
-    if isinstance(v, SInt):
-        return z3.Extract(ast.args[1] - 1, 0, symint.term(v))
-    return _orig_z3_BVV(ast)
-claripy.backends.z3._op_expr["BVV"] = z3_BVV
-claripy.backends.z3._cache_objects = False
+import z3, symint, claripy, traceback, time, itertools
+from symint import SInt, SBool, explore, ENG
+W = symint.W
+import symclaripy
+from symclaripy import BVV, KNOWN
+symclaripy.install()
+_mk = symclaripy.mk
 
 def check(name, n, build, ref, nconst=2, bools=0):
     cs = [z3.BitVec(f"c{i}", n) for i in range(nconst)]
@@ -59,7 +12,7 @@ def check(name, n, build, ref, nconst=2, bools=0):
     b = claripy.BoolS("b", explicit_name=True)
     zx, zy, zb = z3.BitVec("x", n), z3.BitVec("y", n), z3.Bool("b")
     def run():
-        KNOWN.clear()
+        symclaripy.reset_caches()
         C = [BVV(_mk(c, n), n) for c in cs]
         return build(x, y, b, *C)
     t0 = time.time(); paths = 0; bad = None; incon = 0; excs = 0
@@ -76,7 +29,7 @@ def check(name, n, build, ref, nconst=2, bools=0):
             bad = (r, s.model()); break
     print(f"{name:28s} n={n:2d} paths={paths:3d} {'OK' if bad is None else 'CEX '+str(bad)}  {time.time()-t0:.2f}s")
 
-for n in (8, 32, 64):
+for n in (8, 64):
     check("(x-c1)+c2", n, lambda x,y,b,c1,c2: (x - c1) + c2, lambda x,y,b,c1,c2: (x - c1) + c2)
     check("(x+c1)-c2", n, lambda x,y,b,c1,c2: (x + c1) - c2, lambda x,y,b,c1,c2: (x + c1) - c2)
     check("(x<<c1)<<c2", n, lambda x,y,b,c1,c2: (x << c1) << c2, lambda x,y,b,c1,c2: (x << c1) << c2)
@@ -86,4 +39,4 @@ for n in (8, 32, 64):
     check("x^c1^x", n, lambda x,y,b,c1,c2: (x ^ c1) ^ x, lambda x,y,b,c1,c2: c1)
     check("ZeroExt==c", n, lambda x,y,b,c1,c2: claripy.ZeroExt(n, x) == claripy.Concat(c1, c2), lambda x,y,b,c1,c2: z3.ZeroExt(n, x) == z3.Concat(c1, c2))
     check("LShR(x,c1)", n, lambda x,y,b,c1,c2: claripy.LShR(claripy.ZeroExt(n, x), claripy.Concat(c1,c2)), lambda x,y,b,c1,c2: z3.LShR(z3.ZeroExt(n, x), z3.Concat(c1,c2)))
-    check("x*c1*c2", n, lambda x,y,b,c1,c2: (x * c1) * c2, lambda x,y,b,c1,c2: (x * c1) * c2)
+    pass
